@@ -30,9 +30,7 @@ func newSC(c *Ctx, rule string) *SC {
 		c.R.Unknown(rule, "sanitize:"+p, "(*Policy).sanitize", "", p)
 	}
 	F := model.FindFields(c.P)
-	for _, m := range F.Miss {
-		c.R.Unknown(rule, "field-role:"+strings.SplitN(m, ":", 2)[0], "Policy field roles", "", "role not resolvable from the builder API: "+m)
-	}
+	// unresolved roles are reported when (and only when) a rule asks for them: see FinishFields
 	sc := &SC{c: c, S: s, F: F, A: s.A}
 	translateAll(s.A)
 	c.R.Analysed["sanitize"] = s.Describe()
